@@ -46,6 +46,9 @@ CHECKS['C12'] = dict(level='model_checking', design='1/C12', engine='E-CBMC + E-
 CHECKS['C17'] = dict(level='model_checking', design='1/C17',
      text='File::put/write/append/content/firstBytes/read/size, the File stream operators, TextFile::write/text/lines/readLine and BOM decoding are executed symbolically over an in-memory stdio model: every byte content up to the stated size, every text of k filler characters plus symbolic bytes around the 254/255-character fgets chunk edge (LF, CRLF, lone CR, missing final newline), every 1-2 scalar values in UTF-8/UTF-16LE/UTF-16BE BOM files, against reference split/encoders.',
      note='PARTIAL: stdio is the model env/vstdio.c (trusted; native replays use the real libc and real files); real file systems, sizes > 4 KiB and Directory::copy/move are outside. Trusted: z3, engine IR semantics.')
+CHECKS['C18'] = dict(level='model_checking', design='1/C18',
+     text='IniFile (read, set, write explicitly or on destruction, re-read) is executed symbolically on every INI text of up to 3 (thorough 4) lines drawn from 9 line templates with LF/CRLF and with/without a final newline, with symbolic set() targets and values, against a reference map and a comment-order check on the raw output; TabularDataFile write -> read is checked cell for cell on tables whose cells are symbolically numbers, empty strings or strings over separators, quotes and spaces. All over the in-memory stdio model.',
+     note='Bounds in evidence. stdio = env/vstdio.c (trusted; native replays use real files). CSV numbers from a concrete set. Trusted: z3, engine IR semantics.')
 NA = {
 }
 ALL = ['C%02d' % i for i in range(1, 21)]
